@@ -597,6 +597,15 @@ func genLagging(r *rand.Rand, sc *Scenario) {
 		if p.Spares > 0 && r.Intn(2) == 0 {
 			sc.Steps = append(sc.Steps, Step{At: t + 6, Act: "member", S: pick(r, "addvoter", "addnonvoter"), N: []int{p.N() - 1}})
 		}
+		if r.Intn(2) == 0 {
+			// a snapshot taken while a configuration change cannot commit: the leader is cut off,
+			// is asked to change the membership and to snapshot before its lease runs out
+			t += p.HeartbeatMs
+			sc.Steps = append(sc.Steps, Step{At: t, Act: "heal"}, Step{At: t + 2*p.ElectionMs, Act: "lease-cut", V: []float64{0}},
+				Step{At: t + 2*p.ElectionMs + 2, Act: "member", S: pick(r, "addvoter", "remove", "demote", "addnonvoter"), N: []int{r.Intn(p.N())}},
+				Step{At: t + 2*p.ElectionMs + 4 + r.Intn(p.LeaseMs/2+1), Act: "snapshot", N: []int{-1}})
+			t += 2*p.ElectionMs + p.LeaseMs
+		}
 		t += p.HeartbeatMs + r.Intn(2*p.HeartbeatMs)
 		sc.Steps = append(sc.Steps, Step{At: t, Act: "heal"}, Step{At: t + 1, Act: "restartall"})
 	}
